@@ -103,7 +103,8 @@ GenUpd(k) ==
                [] mk = 4 -> Mask(RandomElement(Corrupt \cup {<<>>}))
                [] OTHER  -> Mask(RandomElement(Singles \cup Pairs))
       W   == RandomElement(WChoices)
-      W2  == IF W.nil \/ k % 3 # 0 THEN NilMask ELSE Mask(<<RandomElement(ValidPaths)>>)
+      \* extra writable fields are also given when everything is writable already (they must not narrow it)
+      W2  == IF k % 3 # 0 THEN NilMask ELSE Mask(<<RandomElement(ValidPaths)>>)
   IN [k |-> "upd", n |-> k, old |-> old, wr |-> wr, M |-> M, W |-> W, W2 |-> W2,
       allW |-> (k % 11 = 0), R |-> RandomElement(RChoices)]
 GenProj(k) ==
